@@ -37,6 +37,8 @@ pub struct Shared {
 	/// `receive()` is not cancellation safe, like the WebSocket transport's: it takes the message off the connection,
 	/// then has one more await (point `rx:mid`) before it returns it; a `receive()` future dropped in between loses it
 	pub rx_split: bool,
+	/// `send_ping` fails (the send half is broken at the moment a ping is written)
+	pub fail_ping: bool,
 }
 
 pub struct MockTx(pub Arc<Shared>);
@@ -64,6 +66,14 @@ impl TransportSenderT for MockTx {
 			// the bytes have left, the send future has not returned yet (e.g. waiting for a flush)
 			sched::point("tx:send:returning").await;
 		}
+		Ok(())
+	}
+	async fn send_ping(&mut self) -> Result<(), MockErr> {
+		if self.0.fail_ping {
+			sched::log("tx:ping:FAULT");
+			return Err(MockErr("injected-ping-fault".into()));
+		}
+		sched::log("tx:ping");
 		Ok(())
 	}
 	async fn close(&mut self) -> Result<(), MockErr> {
@@ -132,6 +142,8 @@ pub enum FeOp {
 	SubscribeHold,
 	/// a subscribe that is only started once `after` environment events have fired
 	LateSubscribe,
+	/// this many notifications sent one after the other by one caller
+	NotifBurst(usize),
 }
 
 #[derive(Clone, Debug, PartialEq)]
@@ -260,6 +272,10 @@ pub struct CliScenarioCfg {
 	pub rx_split: bool,
 	/// enable the client's ping/inactivity machinery with this interval (virtual milliseconds)
 	pub ping_ms: Option<u64>,
+	/// the send task's ping ticker (virtual milliseconds); the first tick is immediate
+	pub send_ping_ms: Option<u64>,
+	/// see `Shared::fail_ping`
+	pub fail_ping: bool,
 	/// this many sequential calls (answered at once, no scheduling points) are made before the front-end actors start,
 	/// so that the ids used by the scenario proper start at `warmup`
 	pub warmup: usize,
@@ -269,6 +285,7 @@ pub struct CliScenarioCfg {
 pub fn setup(cfg: &CliScenarioCfg) -> CliState {
 	let shared = Arc::new(Shared {
 		rx_split: cfg.rx_split,
+		fail_ping: cfg.fail_ping,
 		sent: Mutex::new(Vec::new()),
 		send_calls: Mutex::new(0),
 		fail_send_at: cfg.fail_send_at,
@@ -282,7 +299,14 @@ pub fn setup(cfg: &CliScenarioCfg) -> CliState {
 		.request_timeout(Duration::from_secs(3600))
 		.max_buffer_capacity_per_subscription(cfg.buffer_cap)
 		.id_format(cfg.id_kind);
-	if let Some(ms) = cfg.ping_ms {
+	if let Some(ms) = cfg.send_ping_ms {
+		builder = builder.enable_ws_ping(
+			jsonrpsee_core::client::async_client::PingConfig::new()
+				.ping_interval(Duration::from_millis(ms))
+				.inactive_limit(Duration::from_secs(36000))
+				.max_failures(usize::MAX),
+		);
+	} else if let Some(ms) = cfg.ping_ms {
 		// the read task's inactivity timer fires every `ms` (virtual) but never declares the connection inactive:
 		// it only makes that select branch win while other work is in flight
 		builder = builder.enable_ws_ping(
@@ -363,6 +387,16 @@ pub fn setup(cfg: &CliScenarioCfg) -> CliState {
 				}
 				FeOp::Call | FeOp::LateCall => client.request::<Value, _>("m", rpc_params![i as u64]).await.map(|v| v.to_string()).map_err(|e| err_str(&e)),
 				FeOp::Notif => client.notification("note", rpc_params![i as u64]).await.map(|_| "sent".to_string()).map_err(|e| err_str(&e)),
+				FeOp::NotifBurst(n) => {
+					let mut r = Ok("sent".to_string());
+					for j in 0..n {
+						if let Err(e) = client.notification("burst", rpc_params![j as u64]).await {
+							r = Err(err_str(&e));
+							break;
+						}
+					}
+					r
+				}
 				FeOp::Batch(k) | FeOp::LateBatch(k) => {
 					let mut b = BatchRequestBuilder::new();
 					let name = format!("bm{i}");
@@ -511,7 +545,7 @@ pub fn wire_index_of(sent: &[String], op: &FeOp, i: usize) -> Option<usize> {
 			FeOp::Subscribe | FeOp::SubscribeDrop | FeOp::SubscribeHold | FeOp::LateSubscribe => v.get("method").and_then(|x| x.as_str()) == Some("sub") && v.get("params") == Some(&json!([i])),
 			FeOp::Notif => v.get("method").and_then(|x| x.as_str()) == Some("note") && v.get("params") == Some(&json!([i])),
 			FeOp::Call | FeOp::LateCall | FeOp::AbandonCall => v.get("method").and_then(|x| x.as_str()) == Some("m") && v.get("params") == Some(&json!([i])),
-			FeOp::RegisterNotif => false,
+			FeOp::RegisterNotif | FeOp::NotifBurst(_) => false,
 		}
 	})
 }
